@@ -412,7 +412,49 @@ def generate(rng, tier, corpus_only=False):
     for _ in range(n):
         p = rng.choice([2, 2, 3, 3, 3, 5])
         cases.append("redm %d %s" % (p, rand_term(rng, p, 0, 3 * p + 1)))
+    # the main-variable part cancels under x^p = x and leaves high powers of the lower variables
+    cases.append("redm 3 P 0 4 P 1 4 N 0 N 0 N 0 N 1 N -1 N 0 N 1")          # x^3 - x + y^3
+    cases.append("redm 5 P 0 10 P 1 8 N 0 N 0 N 0 N 0 N 0 N 0 N 0 N 1 N -1 N 0 N 0 N 0 N 0 N 0 N 0 N 0 N 1")   # x^9 - x + y^7
+    n = 200 if tier == "quick" else 2000
+    for _ in range(n):
+        p = rng.choice([2, 3, 3, 3, 5, 5])
+        cases.append("redm %d %s" % (p, cancel_term(rng, p, 0)))
     return cases
+
+
+def cancel_term(rng, p, var):
+    """term in the variables var..2 whose part of positive degree in `var` cancels (mostly completely) under
+    v^p = v, while its constant coefficient is again such a term in the next variable: after the fold the
+    polynomial collapses to a lower variable that still carries exponents in [p, 3p]"""
+    if var == 2 or (var == 1 and rng.random() < 0.3):
+        # plain polynomial of high degree in this variable
+        d = rng.randint(p, 3 * p)
+        cs = [0 if rng.random() < 0.5 else rng.randint(lb(p), ub(p)) for _ in range(d)] + \
+             [rng.choice([v for v in field(p) if v])]
+        return "P %d %d %s" % (var, len(cs), " ".join("N %d" % c for c in cs))
+    maxdeg = rng.randint(p, 3 * p + 1)
+    coef = [0] * (maxdeg + 1)
+    for j in range(1, p):
+        exps = list(range(j, maxdeg + 1, p - 1)) if p > 2 else []
+        if p == 2:
+            continue
+        if len(exps) >= 2 and rng.random() < 0.8:
+            k = rng.randint(2, len(exps))
+            chosen = rng.sample(exps, k)
+            vals = [rng.randint(lb(p), ub(p)) for _ in range(k - 1)]
+            vals.append(-sum(vals))
+            for e, v in zip(chosen, vals):
+                coef[e] = canon(v, p)
+    if p == 2:
+        exps = list(range(1, maxdeg + 1))
+        k = 2 * rng.randint(1, max(1, len(exps) // 2))
+        for e in rng.sample(exps, min(k, len(exps) - len(exps) % 2)):
+            coef[e] = 1
+    if rng.random() < 0.2:
+        coef[rng.randint(1, maxdeg)] += 1          # incomplete cancellation: the variable survives
+    # make sure the top coefficient is not a literal zero (a shorter term is fine, the harness adds monomials)
+    parts = [cancel_term(rng, p, var + 1)] + ["N %d" % c for c in coef[1:]]
+    return "P %d %d %s" % (var, len(parts), " ".join(parts))
 
 
 def rand_term(rng, p, var, maxdeg):
